@@ -7,6 +7,18 @@ def run(ctx):
     from checks.durable_common import CURATED
     progs = list(CURATED) + ["s23_slow_caught", "s22_slow_steps"] + [
         {"nodes": [{"k": "step"}], "final_raise": True},
+        # user exceptions of any shape must become a well-formed FAILED: arguments that are not strings / not JSON-encodable
+        {"nodes": [{"k": "step"}], "final_raise": "int"},
+        {"nodes": [{"k": "step"}, {"k": "wait"}], "final_raise": "set"},
+        # ... and handlers that RETURN something json cannot encode
+        {"nodes": [{"k": "step"}], "final_value": "set"},
+        {"nodes": [{"k": "step"}, {"k": "wait"}], "final_value": "datetime"},
+        {"nodes": [{"k": "step", "val": 4}], "final_value": "decimal"},
+        {"nodes": [{"k": "wait"}, {"k": "step"}], "final_value": "tuplekey"},
+        {"nodes": [{"k": "step"}], "final_value": "object"},
+        {"nodes": [{"k": "step", "fail": -1, "max": 1, "errmsg": 404, "errtype": "ValueError"}]},
+        {"nodes": [{"k": "child", "body": [{"k": "step", "fail": -1, "max": 1, "errmsg": "<set>"}]}]},
+        {"nodes": [{"k": "step", "fail": -1, "max": 1, "errmsg": "<exc>", "errtype": "OtherError"}, {"k": "step"}]},
         {"nodes": [{"k": "step", "caught": True, "fail": -1, "max": 1}, {"k": "step", "caught": True}, {"k": "step", "caught": True}]},
         {"nodes": [{"k": "child", "caught": True, "body": [{"k": "step"}, {"k": "step"}]}, {"k": "wfc", "polls": 1, "caught": True}]},
     ]
